@@ -57,11 +57,19 @@ def run(chk):
     if isinstance(frame, list):
         shape = ['ER7' if isinstance(x, Sym) else x for x in frame]
     ok = shape == [K['SB'], 'ER7', K['CR'] + K['EB'] + K['CR']] or shape == [K['SB'], 'ER7', K['CR'], K['EB'], K['CR']]
+    # the one non-constant piece of the frame is the message's own ER7 encoding
     sym_ok = False
     if len(rets) == 1:
-        call = rets[0].value
-        if isinstance(call, ast.Call) and call.args and len(call.args) >= 2:
-            sym_ok = norm(call.args[1]).startswith('self.to_er7(')
+        from .pat import inline_locals
+        whole = inline_locals(rets[0].value, tm.node)
+        nonconst = []
+        for x in ast.walk(whole):
+            if isinstance(x, ast.FormattedValue):
+                nonconst.append(x.value)
+        if not nonconst and isinstance(whole, ast.Call):
+            nonconst = list(whole.args)
+        payload = [x for x in nonconst if isinstance(x, ast.Call)]
+        sym_ok = len(payload) == 1 and norm(payload[0].func) == 'self.to_er7'
     chk.ob('C16-F', 'to_mllp() = SB + self.to_er7(...) + CR + EB + CR', bool(ok and sym_ok),
            'evaluates to %r (payload expression ok: %s)' % (shape, sym_ok), tm.loc, key='C16-F|to_mllp')
     setup = ix.func('mllp.MLLPRequestHandler.setup')
